@@ -466,7 +466,13 @@ func ToPairAlign(samIn, ref io.Reader, outpath string, wrap int, trimStart int, 
 
 	go groupSamRecords(samIn, cSH, cSR, cReadDone, cErr)
 
-	_ = <-cSH
+	// the reader reports a stream it can't parse (e.g. an empty one) on the
+	// error channel instead of sending a header
+	select {
+	case <-cSH:
+	case err := <-cErr:
+		return err
+	}
 
 	go writePairwiseAlignment(outpath, wrap, cPairTrim, cWriteDone, cErr, omitRef)
 
